@@ -149,7 +149,7 @@ class Ctx:
             fcntl.flock(lock, fcntl.LOCK_UN)
             lock.close()
         src = open(os.path.join(COQ, props_file)).read()
-        thms = re.findall(r"^(?:Theorem|Corollary|Example|Lemma)\s+(\w+)", src, re.M)
+        thms = re.findall(r"^\s*(?:Theorem|Corollary|Example|Lemma)\s+(\w+)", src, re.M)
         res["theorems"] = thms
         res["obligations"] = len(thms)
         if not build_ok:
@@ -166,7 +166,7 @@ class Ctx:
             if m:
                 upto = int(m.group(1))
                 lines = src.split("\n")[:upto]
-                res["discharged"] = max(0, len(re.findall(r"^(?:Theorem|Corollary|Example|Lemma)\s+(\w+)", "\n".join(lines), re.M)) - 1)
+                res["discharged"] = max(0, len(re.findall(r"^\s*(?:Theorem|Corollary|Example|Lemma)\s+(\w+)", "\n".join(lines), re.M)) - 1)
             return res
         res["discharged"] = len(thms)
         res["ok"] = True
